@@ -87,6 +87,27 @@ def c_series_bounds(rng):
             stb = cs.arr.sindex.total_bounds
             if not all(nan_eq(a, c) for a, c in zip(stb, tb)):
                 out.append(V(f'sindex.total_bounds/{kind_class(kind)}/{region_of(cs.view)}', f'got {stb} expected {tb}', cs.recipe))
+            # the index built by the array / series answers in terms of ROW POSITIONS of that array, whatever rows
+            # are missing or empty
+            bx = oracle.norm_box(gen.box(rng))
+            hit, cov = [], []
+            for i, e in enumerate(exp):
+                if any(math.isnan(c) for c in e):
+                    continue
+                if e[0] <= bx[2] and e[2] >= bx[0] and e[1] <= bx[3] and e[3] >= bx[1]:
+                    hit.append(i)
+                    if e[0] >= bx[0] and e[2] <= bx[2] and e[1] >= bx[1] and e[3] <= bx[3]:
+                        cov.append(i)
+            for src, sx in (('array', cs.arr.sindex), ('series', s.sindex)):
+                got = sorted(int(i) for i in sx.intersects(bx))
+                if got != hit:
+                    out.append(V(f'sindex.intersects-row-positions/{src}/{kind_class(kind)}/{region_of(cs.view)}',
+                                 f'box {bx}: got {got} expected {hit}', dict(cs.recipe, box=bx)))
+                c_, o_ = sx.covers_overlaps(bx)
+                gc, go = sorted(int(i) for i in c_), sorted(int(i) for i in o_)
+                if sorted(gc + go) != hit or not set(gc) <= set(cov):
+                    out.append(V(f'sindex.covers_overlaps-row-positions/{src}/{kind_class(kind)}/{region_of(cs.view)}',
+                                 f'box {bx}: covers {gc} overlaps {go}; intersecting {hit}, fully inside {cov}', dict(cs.recipe, box=bx)))
     except Exception as e:
         out.append(V(f'series.bounds/{kind_class(kind)}/raises-{type(e).__name__}/{region_of(cs.view)}', f'{type(e).__name__}: {e}', cs.recipe))
     return out
